@@ -142,14 +142,19 @@ CLAIMED = {
        "Last-resort key packages need a cargo feature the default build lacks: not exercised. External-commit joins are checked by the oracle only.",
   ref="DESIGN.md §4 C07"),
  "C08": dict(
-  technique="Lean 4 proof (shape, trimming, leftmost placement, unmerged-list and uniqueness invariants for every reachable tree) + observer validation and independent tree-hash recomputation on real histories",
+  technique="Lean 4 proof (shape, trimming, leftmost placement, unmerged-list and uniqueness invariants for every reachable tree; incremental tree-hash cache = from-scratch RFC tree hash for every history) + observer validation, independent tree-hash recomputation and hash-cache partition rows on real histories",
   text="Theorems MlsVerif.Props.C08 on the tree model: no trailing blank after batchEdit / encap / applyUpdatePath, added leaves occupy the leftmost blank slots in order (incl. soundness of "
-       "the `start` shortcut), ShapeInv / UnmergedInv / UniqInv / NonEmptyInv preserved by every operation, hence WF for every reachable tree (reachable_trees_wf). Tie: tree stream; direct "
-       "oracle after every commit: the exported tree + GroupInfo pass ExternalClient::observe_group (the full validation of an outsider: tree hash, parent hashes, unmerged leaves, leaf "
-       "validity) and every joiner's validation, and the tree hash in every member's context equals a from-scratch recursive recomputation written in the harness.",
-  note="PARTIAL, stated: validity of the parent-hash chains for all histories (TreeSync) and coherence of the incremental tree-hash cache are NOT proved; they are decided only by the "
-       "oracle above on the explored histories. Trusted: Lean kernel, tree model validated by the stream, harness.",
-  ref="DESIGN.md §4 C08"),
+       "the `start` shortcut), ShapeInv / UnmergedInv / UniqInv / NonEmptyInv preserved by every operation, hence WF for every reachable tree (reachable_trees_wf). Theorems "
+       "MlsVerif.Props.C08Hash on a faithful model of tree_hash.rs (resize, leaf loop, FIFO parent queue with duplicates, right-to-left scan for missing entries): tree_hash_full (a full "
+       "computation from any old cache is the RFC 9420 section 7.8 recursion), update_hashes_coherent (an incremental update with the leaf list the code passes restores coherence after any "
+       "change confined to the direct paths of those leaves, after growth and after trimming), coherent_preserved_batchEdit / _encap / _applyUpdatePath, reachable_cache_coherent and "
+       "reachable_context_tree_hash (in every reachable state the context's tree hash is the from-scratch hash of the tree), grow_only_resize_breaks_coherence (machine-checked witness that "
+       "dropping the truncation breaks it). Tie: tree stream (~7.5k rows) + ~3k `thashspec` rows per quick run comparing, for every member and commit, the partition of previous ++ current "
+       "cache entries by equal bytes with the partition by equal hash terms of the model; direct oracle after every commit: exported tree + GroupInfo pass ExternalClient::observe_group and "
+       "every joiner's validation, the context tree hash equals a from-scratch recomputation written in the harness.",
+  note="PARTIAL, stated: validity of the parent-hash chains for all histories (TreeSync) is NOT proved; it is decided only by the oracle above on the explored histories. The hash is a free "
+       "(injective) symbol in the cache theorems. Trusted: Lean kernel, tree and tree-hash models validated by the streams, harness.",
+  ref="DESIGN.md §4 C08, §12"),
  "C09": dict(
   technique="Lean 4 proof (KeyInv preserved by every commit for committer, receivers, updated members and joiners; decap position agreement; fresh path keys) + private-slot correspondence and seal/open probes",
   text="Theorems MlsVerif.Props.C09: encap_keyinv, decap_keyinv / decap_succeeds / decap_position_agrees (the resolution lemma), joiner_keyinv, provisional_keyinv, fresh_path_keys, "
